@@ -42,10 +42,14 @@ impl Driver for StTokenWorld {
         let init: Vec<String> = (0..3).map(|_| rng.amount(cap).to_string()).collect();
         let mut ops = vec![];
         for _ in 0..n {
-            let a = rng.next() % 6; let b = rng.next() % 6; let c = rng.next() % 6;
+            let (mut a, mut b, c) = (rng.next() % 6, rng.next() % 6, rng.next() % 6);
             let kind = ["mint", "transfer", "send", "burn", "allow", "transfer_from", "burn_from", "send_from", "mint", "transfer"][(rng.next() % 10) as usize];
             // amounts relative to the balance / allowance are resolved at run time: mode 0 = small, 1 = all, 2 = one more than available, 3 = half
-            ops.push(json!({"op": kind, "a": a, "b": b, "c": c, "amt": rng.amount(cap).to_string(), "mode": rng.next() % 4}));
+            // allowance operations mostly revolve around one owner/spender pair, so that grants, top-ups, expiry and spending meet
+            if matches!(kind, "allow" | "transfer_from" | "burn_from" | "send_from") && rng.next() % 3 != 0 { a = 0; b = 1; }
+            // an allowance may carry an expiry (block height); time passes between operations
+            let exp: Value = if rng.next() % 3 == 0 { json!(rng.next() % 6) } else { Value::Null };
+            ops.push(json!({"op": kind, "a": a, "b": b, "c": c, "amt": rng.amount(cap).to_string(), "mode": rng.next() % 4, "exp": exp, "tick": rng.next() % 3}));
         }
         json!({"init": init, "ops": ops})
     }
@@ -60,6 +64,8 @@ impl Driver for StTokenWorld {
         // the reward contract's mirror starts from the same initial balances (the deployment mints through the hub; initial rows are a deployment concern)
         let mut mirror = bal.clone();
         let mut allow: BTreeMap<(String, String), u128> = BTreeMap::new();
+        let mut allow_exp: BTreeMap<(String, String), u64> = BTreeMap::new();     // expiry height of an allowance (absent: never)
+        let mut height: u64 = 12_345;
         let mut c: BTreeMap<String, bool> = BTreeMap::new();
         let and = |c: &mut BTreeMap<String, bool>, k: &str, v: bool| { let e = c.entry(k.to_string()).or_insert(true); *e = *e && v; };
         let mut trace = vec![];
@@ -68,6 +74,9 @@ impl Driver for StTokenWorld {
             let (a, b, d) = (WHO[op["a"].as_u64().unwrap() as usize % 6], WHO[op["b"].as_u64().unwrap() as usize % 6], WHO[op["c"].as_u64().unwrap() as usize % 6]);
             let mode = op["mode"].as_u64().unwrap_or(0);
             let pick = |avail: u128| -> u128 { match mode { 0 => u(&op["amt"]).min(avail.max(1)), 1 => avail, 2 => avail + 1, _ => avail / 2 } };
+            height += op["tick"].as_u64().unwrap_or(0);
+            let mut env = mock_env(); env.block.height = height;
+            let exp_h: Option<u64> = op["exp"].as_u64().map(|d| height + d);
             let hook = Binary::from(b"{}".to_vec());
             // (sender, message, expected effect on the ledger if accepted, must it be accepted / rejected)
             let (sender, msg, amt): (&str, ExecuteMsg, u128) = match kind {
@@ -75,7 +84,7 @@ impl Driver for StTokenWorld {
                 "transfer" => { let x = pick(bal[a]); (a, ExecuteMsg::Transfer { recipient: b.to_string(), amount: Uint128::new(x) }, x) }
                 "send" => { let x = pick(bal[a]); (a, ExecuteMsg::Send { contract: b.to_string(), amount: Uint128::new(x), msg: hook.clone() }, x) }
                 "burn" => { let s = if mode == 2 { a } else { "hub" }; let x = pick(bal[s]).min(bal[s]); (s, ExecuteMsg::Burn { amount: Uint128::new(x) }, x) }
-                "allow" => { let x = u(&op["amt"]); (a, ExecuteMsg::IncreaseAllowance { spender: b.to_string(), amount: Uint128::new(x), expires: None }, x) }
+                "allow" => { let x = u(&op["amt"]); (a, ExecuteMsg::IncreaseAllowance { spender: b.to_string(), amount: Uint128::new(x), expires: exp_h.map(cw20::Expiration::AtHeight) }, x) }
                 "transfer_from" => { let x = pick(*allow.get(&(a.to_string(), b.to_string())).unwrap_or(&0)); (b, ExecuteMsg::TransferFrom { owner: a.to_string(), recipient: d.to_string(), amount: Uint128::new(x) }, x) }
                 "burn_from" => { let x = pick(*allow.get(&(a.to_string(), b.to_string())).unwrap_or(&0)); (b, ExecuteMsg::BurnFrom { owner: a.to_string(), amount: Uint128::new(x) }, x) }
                 _ => { let x = pick(*allow.get(&(a.to_string(), b.to_string())).unwrap_or(&0)); (b, ExecuteMsg::SendFrom { owner: a.to_string(), contract: d.to_string(), amount: Uint128::new(x), msg: hook.clone() }, x) }
@@ -83,7 +92,7 @@ impl Driver for StTokenWorld {
             let before = bal.clone();
             // VM atomicity (A7): a rejected execute leaves no writes behind
             let snap: Vec<(Vec<u8>, Vec<u8>)> = deps.storage.range(None, None, Order::Ascending).collect();
-            let res = execute(deps.as_mut(), mock_env(), mock_info(sender, &[]), msg);
+            let res = execute(deps.as_mut(), env.clone(), mock_info(sender, &[]), msg);
             let ok = res.is_ok();
             if !ok { let mut st = MockStorage::default(); for (k, v) in snap.iter() { st.set(k, v); } deps.storage = st; }
             let al = *allow.get(&(a.to_string(), b.to_string())).unwrap_or(&0);
@@ -93,9 +102,14 @@ impl Driver for StTokenWorld {
                 "mint" => { expect_ok = sender == "hub"; if ok { *bal.get_mut(b).unwrap() += amt; } and(&mut c, "sw#C18.only_hub_mints", ok == expect_ok || (expect_ok && amt == 0)); }
                 "transfer" | "send" => { expect_ok = amt <= before[a]; if ok { *bal.get_mut(a).unwrap() -= amt; *bal.get_mut(b).unwrap() += amt; } and(&mut c, "sw#C18.transfer_within_balance", !ok || expect_ok); }
                 "burn" => { expect_ok = sender == "hub" && amt <= before[sender]; if ok { *bal.get_mut(sender).unwrap() -= amt; } and(&mut c, "sw#C18.only_hub_burns_own", !ok || expect_ok); }
-                "allow" => { if ok { *allow.entry((a.to_string(), b.to_string())).or_insert(0) += amt; } }
+                "allow" => { if ok { *allow.entry((a.to_string(), b.to_string())).or_insert(0) += amt; if let Some(e) = exp_h { allow_exp.insert((a.to_string(), b.to_string()), e); } } }
                 "transfer_from" | "send_from" => { expect_ok = amt <= al && amt <= before[a]; if ok { *bal.get_mut(a).unwrap() -= amt; *bal.get_mut(d).unwrap() += amt; allow.insert((a.to_string(), b.to_string()), al.saturating_sub(amt)); } and(&mut c, "sw#C18.never_more_than_allowance", !ok || expect_ok); }
                 _ => { expect_ok = amt <= al && amt <= before[a]; if ok { *bal.get_mut(a).unwrap() -= amt; allow.insert((a.to_string(), b.to_string()), al.saturating_sub(amt)); } and(&mut c, "sw#C18.never_more_than_allowance", !ok || expect_ok); }
+            }
+            if matches!(kind, "transfer_from" | "burn_from" | "send_from") {
+                // an allowance whose expiry height has been reached can not be used (a top-up that omits `expires` keeps the stored expiry)
+                let expired = allow_exp.get(&(a.to_string(), b.to_string())).map_or(false, |e| *e <= height);
+                and(&mut c, "sw#C18.expired_allowance_is_never_spent", !(ok && expired && amt > 0));
             }
             // mirror messages of an accepted operation
             let mut slashing_check = false;
